@@ -42,7 +42,8 @@ def main():
         if "cwd_locations" in req:
             # a catalog declared in a module of a project WITHOUT configuration file or repository: where its entries
             # live must not depend on the directory the session was started from
-            proj = d / "plain" / "project"
+            d_plain = Path(tempfile.mkdtemp(prefix="verif_c20p_"))      # no configuration file anywhere above
+            proj = d_plain / "plain" / "project"
             (proj / "pkg").mkdir(parents=True)
             (proj / "pkg" / "config.py").write_text("from pytask import DataCatalog\ncat = DataCatalog(name='c')\nprint('LOC', cat.path, cat['x'].path)\n")
             locs = {}
@@ -50,8 +51,9 @@ def main():
                 q = subprocess.run([sys.executable, "-c", f"import sys; sys.path.insert(0, {str(proj / 'pkg')!r}); import config"],
                                    capture_output=True, text=True, cwd=cwd)
                 line = [l for l in q.stdout.splitlines() if l.startswith("LOC")]
-                locs[str(cwd.relative_to(d)) if cwd != Path("/") else "/"] = line[-1].replace(str(d), "") if line else "error: " + q.stderr[-300:]
+                locs[str(cwd.relative_to(d_plain)) if cwd != Path("/") else "/"] = line[-1].replace(str(d_plain), "") if line else "error: " + q.stderr[-300:]
             res["cwd_locations"] = locs
+            shutil.rmtree(d_plain, ignore_errors=True)
         if "roundtrip" in req:
             # sessions: producer writes values into entries, consumers read them in this and a later build
             proj = d / "proj"
